@@ -239,6 +239,12 @@ def damaged_models(rng, quick):
         for pn in cplan[cn]:
             m = dict(cm); m["cond"] = dict(cm["cond"]); m["cond"].update(patterns[pn])
             out.append(("cross:%s:%s" % (cn, pn), m, None, None, dict(self=0, hm=1)))
+    # om_check_geom with every subset of {-m, -d} x {good, bad}: the exit status is the conjunction of the library verdicts
+    good_m = sphere(0.3); bad_m = sphere(0.3, (0.35, 0.0, 0.0))
+    good_d = inner_dips(4, 0.3); bad_d = inner_dips(3, 0.3) + [(0.0, 0.0, 0.9)]
+    for mn, mm_ in (("good", good_m), ("bad", bad_m)):
+        for dn, dd in (("good", good_d), ("bad", bad_d)):
+            out.append(("tool:mesh-%s+dipoles-%s" % (mn, dn), base(), mm_, dd, dict(self=1, mesh=1 if mn == "good" else 0, inner=1 if dn == "good" else 0)))
     # non nested models: mesh/mesh intersections are not examined by selfCheck; dipoles are refused
     out.append(("siblings-clean", models.inclusions(1.0, [((0.45, 0, 0), 0.3, 1.0), ((-0.45, 0.1, 0), 0.3, 0.33)], 1.0, level=lvl), None, inner_dips(2, 0.2), dict(self=1, inner=0)))
     return out
@@ -496,12 +502,49 @@ def main(replay=None):
                 ck.violation("geometry checks: " + name, "generated model `%s`: %s" % (name, "; ".join(msgs)),
                              dict(kind="geometry", geom=[name], cases=[ml[:2000]], files=files, dipoles=dips,
                                   commands=["om_check_geom -g model.geom [-m extra.tri] [-d dip.txt]", "om_assemble -HM model.geom model.cond hm.bin"]))
+    # ---- few intersecting triangle pairs, several OpenMP thread counts, repeated: the verdict must never change
+    tstats = []
+    if not replay or rp.get("threads"):
+        import random as _r2
+        trng = _r2.Random(ck.seed * 104729 + 5)
+        v1, t1 = models.icosphere(1)
+        def shell(r): return models.transform(v1, r, (0, 0, 0))
+        def poke(vs, k, r): 
+            vs = list(vs); n_ = math.sqrt(sum(c * c for c in vs[k])); vs[k] = tuple(c * r / n_ for c in vs[k]); return vs
+        mclean = models.nested([0.5, 0.8, 1.0], [1.0, 0.0125, 1.0], level=1)
+        src = (poke(shell(0.3), trng.randrange(len(v1)), 0.62), list(t1))                 # one source vertex through the cortex
+        mpoke = models.nested([0.5, 0.8, 1.0], [1.0, 0.0125, 1.0], level=1)
+        n_, vs_, ts_ = mpoke["meshes"][0]; mpoke["meshes"][0] = (n_, poke(vs_, trng.randrange(len(vs_)), 0.88), ts_)   # one cortex vertex through the skull
+        tcases = [("threads:source-vertex-through-cortex", mclean, src, 1), ("threads:cortex-vertex-through-skull", mpoke, None, 0)]
+        for tk, (tname, tm, textra, mode) in enumerate(tcases):
+            gid = 900 + tk
+            info = write_geom_case(trng, gid, ck.workdir, tm, textra, None)
+            reps = 40 if quick else 200
+            rec = dict(name=tname, reps=reps, ok_counts={})
+            for nth in ("1", "2", "4", "8"):
+                rct, to, _e = core.run_harness(hb, ["c12 16 %d %d %d" % (gid, reps, mode)], ck.workdir, tag="threads", env={"OMP_NUM_THREADS": nth})
+                z = [int(x) for x in to[0].split()] if to and not to[0].startswith("CRASH") else [-9, -9]
+                rec["ok_counts"][nth] = z[1] if z[0] == 0 else str(z)
+                if z[0] != 0 or z[1] != 0:
+                    files = {fn: open(os.path.join(info["dir"], fn)).read() for fn in sorted(os.listdir(info["dir"])) if fn.endswith((".geom", ".cond", ".tri"))}
+                    ck.violation("geometry checks under OpenMP: " + tname,
+                                 "%s of a model that is defective by construction (few intersecting triangle pairs) answered 'fine' in %s of %d repetitions with OMP_NUM_THREADS=%s" % ("Geometry::check(mesh)" if mode else "Geometry::selfCheck", z[1] if z[0] == 0 else z, reps, nth),
+                                 dict(kind="threads", threads=[tname], files=files, omp_num_threads=nth, commands=["OMP_NUM_THREADS=%s om_check_geom -g model.geom%s   (repeat)" % (nth, " -m extra.tri" if mode else "")]))
+                    break
+            tstats.append(rec)
+    # ---- the loops of the validity checks are modelled as sequential folds: a parallel loop in these files is outside the model
+    for rel in ("OpenMEEG/src/mesh.cpp", "OpenMEEG/src/geometry.cpp", "OpenMEEG/src/interface.cpp", "OpenMEEG/src/triangle.cpp", "OpenMEEG/include/Triangle_triangle_intersection.h"):
+        try: txt = open(os.path.join(ombuild.REPO, rel)).read()
+        except OSError: continue
+        if "pragma omp" in txt:
+            ck.violation("parallel loop in a file modelled sequentially: " + rel, "%s now contains an OpenMP pragma; coq/Geom/Checks.v models Mesh::intersection / has_self_intersection / selfCheck as sequential folds (see the thread-count runs for a failing input)" % rel,
+                         dict(kind="source-gate", file=rel), found_input=False)
     ck.cov.update(evaluations=len(cases) + len(gstats), distinct_nontrivial=len(set(cases)) + len(gstats),
                   rule="distinct case lines; triangle pairs aimed at the branches of the decision tree (plane rejections, canonical permutations, coplanar fallback with its three projections, touching configurations); soups for the loops; generated clean/damaged head models",
                   samples=cases[len(cases) // 2:len(cases) // 2 + 2], op_distribution=dist, triangle_pairs=stats["pairs"],
                   pairs_intersecting=stats["isect_true"], oracle_checked=stats["oracle_checked"], oracle_no_clearance=stats["oracle_noclear"],
                   soups_self_intersecting=stats["self_true"], soup_pairs_intersecting=stats["pair_true"],
-                  correspondence_mismatches=stats["mism"], geometry_models=gstats, near_coplanar_pairs=nc, contains_cases=cs, traces_validated_against_impl=len(cases) + len(gstats))
+                  correspondence_mismatches=stats["mism"], geometry_models=gstats, near_coplanar_pairs=nc, thread_count_runs=tstats, contains_cases=cs, traces_validated_against_impl=len(cases) + len(gstats))
     ck.cov["trusted_base"] += ["hand-written Gallina models coq/Geom/{TriTri,Checks}.v tied by exact differential runs (harness/h_c12.cpp vs extracted extract/omm)",
                                "extraction: ExtrOcamlBasic only", "Interface::contains (solid angle) is an abstract predicate of the model; its values are taken from the implementation"]
     ck.assumptions += ["triangle-triangle predicate: symmetry and agreement with exact geometry are validated against the oracle on pairs in generic position, not proved",
